@@ -38,6 +38,7 @@ function call(f, args) {
 }
 const realLog = console.log;
 console.log = () => {}; // index.js prints a banner
+console.warn = () => {}; // wasm_exec.js warns once per spin when it has lost a timeout event
 (async () => {
   let exportsObj;
   const indexPath = path.join(dir, "src", "index.js");
@@ -65,7 +66,16 @@ console.log = () => {}; // index.js prints a banner
   async function again() {
     try { exportsObj = await require(indexPath)(); inits++; } catch (e) { /* the cases report what follows */ }
   }
-  if (reinit) { await again(); await again(); }
+  // ... and once right after a call that made the first Go program's heap grow (1 MiB string arguments), followed by
+  // two seconds in which the event loop runs: whatever the earlier program has scheduled must not disturb the later one
+  const pause = (ms) => new Promise((r) => setTimeout(r, ms));
+  if (reinit) {
+    call(globalThis.generateOTPURL, ["totp", "iss", "a".repeat(1 << 20), "GEZDGNBVGY3TQOJQGEZDGNBVGY3TQOJQ", "6", "SHA1"]);
+    call(globalThis.generateHOTP, ["A".repeat(1 << 20), 1, "6", "SHA1"]);
+    await again();
+    await pause(2000);
+    await again();
+  }
   for (const c of cases) {
     if (reinit && ++n % 97 === 0) await again();
     const args = (c.args || []).map(toArg);
